@@ -171,7 +171,10 @@ def module_case(arg):
                 out["abstained"] += 1
                 continue
             if problems:
-                tainted = opn != "ocopy" and (cppsuite.signed_enum_taint(m, s, params, a) or cppsuite.signed_enum_taint(m, s, params, bb))
+                if opn == "ocopy":
+                    tainted = cppsuite.signed_enum_taint(m, s, params, a[bb[0]:bb[0] + bb[1]])
+                else:
+                    tainted = cppsuite.signed_enum_taint(m, s, params, a) or cppsuite.signed_enum_taint(m, s, params, bb)
                 out["viol"].append({"mech": "signed-enum-narrow-field-zero-extended" if tainted else
                                     "%s-differs:%s" % ("copy" if opn != "eq" else "equals", problems[0][0]),
                                     "what": "struct %s params %r op %s kind %s a=%s b=%s: %s" % (
